@@ -17,6 +17,7 @@ for d in sorted(glob.glob('/verif/seeded/*/')):
         how={'detected':'concrete input','MISSED':'MISSED'}.get(reg['result'], reg['result'])
         if reg['result']=='detected' and reg.get('failing_input'): det=dict(det,failing_input=reg['failing_input'])
         if reg['result']=='MISSED' and det.get('also_caught_by'): how='caught by a sibling check: '+det['also_caught_by'][:80]
+        if 'no-failing-input-found' in reg['result'] and det.get('also_caught_by'): how+='; concrete input from a sibling check: '+det['also_caught_by'][:90]
     if (reg.get('result') or '').startswith('patch-does-not-apply'): how+=' (at the time; the patch no longer applies to the repaired tree)'
     rows.append((name,', '.join(files),(m.get('summary') or '')[:160].replace('|','/').replace('\n',' '),det.get('check','').split(' (')[0],how,(det.get('failing_input') or '')[:90].replace('|','/'),'yes' if det.get('history') else ''))
 out=['# Seeded property-breaking changes and the checks that catch them','',
